@@ -4,30 +4,36 @@
   Model: Conc.lean (small-step, lock-acquisition granularity), tied to the code by the
   event-log replay of every shadow run.
 
-  PROVED so far (`C03_linearizable_nodelete_partial`): for every key type and strict weak
-  order, every initial tree satisfying the structural and the ordering invariant (in
-  particular a fresh tree), every finite family of client programs WITHOUT Delete that respect
-  the cursor discipline (Insert, Update, Search, and cursor sessions alongside), EVERY number
-  of threads and EVERY schedule: the history of invocations and responses recorded in the log
-  (`history c`: an Update's response carries the argument its callback received) is
-  linearizable in the sense of Herlihy and Wing with respect to the map specification
-  `Spec` — `Lin.Linearizable`: some total order of all completed and some pending operations
-  respects real time and replays on `Spec` to exactly the responses observed.
-  Method: the key-order invariant `KInv` (ordering `Ord`; every reader is ON the search path
-  of its key, every writer additionally inside the interval of the node it holds) is
-  inductive on top of the structural invariant (`step_kinv_nodel`); structural blocks
-  (splits, first-separator lowering) leave the abstract map unchanged and leaf blocks are
-  `Spec` operations on the leaf that is authoritative for the key (`resume_kpost_U`); every
-  map operation takes effect in the step in which it returns (`CLin.lean`); a history
-  decorated with such linearization points is linearizable (`LinPoints.lean`, generic).
-  The FULL statement with Delete (`C03_linearizable_statement`) additionally needs the
-  separator invariant `ISep` (stage C, in progress); it is decided on the implementation
-  side by the linearizability checker over all schedules of a catalogue and thousands of
-  random schedules.
+  PROVED (`C03_linearizable`): for every key type and strict weak order, every initial tree
+  satisfying the structural, ordering and separator invariants (in particular a fresh tree),
+  every finite family of client programs that respect the cursor discipline (Insert, Update,
+  Delete, Search, and cursor sessions alongside), EVERY number of threads and EVERY schedule:
+  the history of invocations and responses recorded in the log (`history c`: an Update's
+  response carries the argument its callback received) is linearizable in the sense of
+  Herlihy and Wing with respect to the map specification `Spec` — `Lin.Linearizable`: some
+  total order of all completed and some pending operations respects real time and replays on
+  `Spec` to exactly the responses observed.
+  Method: three layers of invariants of the small-step model, each inductive over scheduler
+  steps: structural `CInv` (C06/C07/C08); key order `KInv` (ordering `Ord`; every reader is ON
+  the search path of its key, every writer additionally inside the interval of the node it
+  holds); separators `ISep` (a parent's separator for an inner child is equivalent to the
+  child's first separator unless an Insert/Update is in the middle of lowering both — this is
+  what repair F7 establishes and what keeps readers on their route when a Delete borrows or
+  merges).  Structural blocks (splits, first-separator lowering, borrows, merges, root
+  collapse) leave the abstract map unchanged; leaf blocks are `Spec` operations on the leaf
+  that is authoritative for the key.  Search/Insert/Update take effect in the step in which
+  they return; a Delete in the step that removes the key from its leaf (its unwinding may
+  take further steps).  A history decorated with such linearization points is linearizable
+  (`LinPoints.lean`, generic).
+  Corollaries kept: `C03_linearizable_nodelete_partial` (the stage-B theorem, no separator
+  hypothesis), `C03_invariants` (the three invariants in every reachable configuration).
+  Modelled, not verified: interleaving at lock-acquisition granularity (DRF-SC of the Go
+  memory model + C07); the implementation side is decided by the linearizability checker over
+  all schedules of the catalogues and thousands of random schedules.
 -/
 import Gobptree.Proofs.ConcReach
 import Gobptree.Run
-import Gobptree.Proofs.CFinal
+import Gobptree.Proofs.CFinal2
 
 namespace Gobptree.Conc
 open Gobptree
@@ -37,11 +43,26 @@ variable {K V : Type}
 /-! ### linearizability (Herlihy–Wing); definitions in `Proofs/LinPoints.lean` (`Lin.HEv`,
     `Lin.opsOf`, `Lin.IsLinearization`, `Lin.Linearizable`) and `Proofs/CLDefs.lean` (`history`) -/
 
-/-- FULL statement (with Delete; not yet a theorem) -/
-def C03_linearizable_statement : Prop :=
-  ∀ (lt : Nat → Nat → Bool) (P : Params Nat) (tree : Tree Nat Nat) (progs : List (List (COp Nat Nat))) (c : Config Nat Nat),
-    KParams lt P → TreeOk none tree → OrdTree lt tree → tree.order = P.order → PadOk P → Disciplined progs →
-    Reachable (Config.init P tree progs) c → Lin.Linearizable lt tree.abs (history c)
+/-- **C03: concurrent Insert/Update/Delete/Search are linearizable, under every schedule.** -/
+theorem C03_linearizable (lt : K → K → Bool) (P : Params K) (tree : Tree K V) (progs : List (List (COp K V)))
+    (hkp : KParams lt P) (ht : TreeOk none tree) (hord : OrdTree lt tree) (hsep : SepTree lt tree)
+    (ho : tree.order = P.order) (hp : PadOk P) (hd : Disciplined progs)
+    (c : Config K V) (hr : Reachable (Config.init P tree progs) c) :
+    Lin.Linearizable lt tree.abs (history c) :=
+  linearizable_full' lt P tree progs hkp ht hord hsep ho hp hd c hr
+
+/-- **C03: the invariants behind it hold in every reachable configuration**: structure
+    (`CInv`), key order and thread positions (`KInv`), separators (`ISep`). -/
+theorem C03_invariants (lt : K → K → Bool) (P : Params K) (tree : Tree K V) (progs : List (List (COp K V)))
+    (hkp : KParams lt P) (ht : TreeOk none tree) (hord : OrdTree lt tree) (hsep : SepTree lt tree)
+    (ho : tree.order = P.order) (hp : PadOk P) (hd : Disciplined progs)
+    (c : Config K V) (hr : Reachable (Config.init P tree progs) c) : KFInv lt c :=
+  reachable_kfinv' lt P tree progs hkp ht hord hsep ho hp hd c hr
+
+/-- a fresh tree satisfies all three initial-tree hypotheses, for every order and comparison -/
+theorem C03_fresh_tree_ok (lt : K → K → Bool) (o : Nat) (h4 : 4 ≤ o) (he : o % 2 = 0) :
+    TreeOk none (Tree.new o : Tree K V) ∧ OrdTree lt (Tree.new o : Tree K V) ∧ SepTree lt (Tree.new o : Tree K V) :=
+  ⟨new_treeOk o h4 he, new_ordTree lt o, new_sepTree lt o⟩
 
 /-- **C03 (programs without Delete): linearizable under every schedule.** -/
 theorem C03_linearizable_nodelete_partial (lt : K → K → Bool) (P : Params K) (tree : Tree K V)
@@ -81,7 +102,7 @@ example : KParams (fun a b : Nat => decide (a < b)) (Params.mk (fun a b => decid
 
 /-! ### proved: Search is read-only under every schedule -/
 
-theorem roArrive_tree (P : Params K) (t : Nat) (s : St K V) (sc : Bool) (key : K) (hold : Lk) (n : Nat) :
+theorem roArrive_treeRO (P : Params K) (t : Nat) (s : St K V) (sc : Bool) (key : K) (hold : Lk) (n : Nat) :
     (roArrive P t s sc key hold n).1.tree = s.tree := by
   unfold roArrive
   simp only
@@ -103,7 +124,7 @@ theorem C03_search_readonly_partial (P : Params K) (t : Nat) (s : St K V) (sc : 
     (resume P t s (.roTree sc key)).1.tree = s.tree := by
   refine ⟨fun hold want => ?_, rfl⟩
   simp only [resume]
-  rw [roArrive_tree]
+  rw [roArrive_treeRO]
   rfl
 
 end Gobptree.Conc
@@ -111,3 +132,6 @@ end Gobptree.Conc
 #print axioms Gobptree.Conc.C03_search_readonly_partial
 #print axioms Gobptree.Conc.C03_linearizable_nodelete_partial
 #print axioms Gobptree.Conc.C03_key_order_invariant_partial
+#print axioms Gobptree.Conc.C03_linearizable
+#print axioms Gobptree.Conc.C03_invariants
+#print axioms Gobptree.Conc.C03_fresh_tree_ok
